@@ -237,6 +237,14 @@ def make_models(int_value=None, on_float=None, extra=None):
                 return advance(a[0], i)
         return 0
 
+    def m_memchr(it, ctx, n, a):
+        c = _need_int(a[1], 'memchr character') & 0xff
+        k = _need_int(a[2], 'memchr length')
+        for i, x in enumerate(cbytes(a[0], k)):
+            if x == c:
+                return advance(a[0], i)
+        return 0
+
     def m_strstr(it, ctx, n, a):
         h, nd = cbytes(a[0]), cbytes(a[1])
         for i in range(len(h) - len(nd) + 1):
@@ -383,7 +391,7 @@ def make_models(int_value=None, on_float=None, extra=None):
 
     models = {
         'strlen': m_strlen, 'strcmp': m_strcmp, 'strncmp': m_strncmp, 'strncasecmp': m_strncasecmp,
-        'memcmp': m_memcmp, 'strchr': m_strchr, 'strstr': m_strstr, '__ctype_b_loc': m_ctype,
+        'memcmp': m_memcmp, 'strchr': m_strchr, 'memchr': m_memchr, 'strstr': m_strstr, '__ctype_b_loc': m_ctype,
         'strtoul': _strtoint(False), 'strtoull': _strtoint(False), 'strtol': _strtoint(True), 'strtoll': _strtoint(True),
         'strtold': _strtofloat('strtold'), 'strtod': _strtofloat('strtod'), 'strtof': _strtofloat('strtof'),
         'calloc': m_calloc, 'malloc': m_calloc, 'realloc': m_realloc, 'memcpy': m_memcpy,
